@@ -33,7 +33,11 @@ def gen_page(rng, n=None, texts=None, hrefs=None):
             attrs += ' href="%s"' % rng.choice(hrefs)
         if rng.random() < 0.2:
             attrs += ' title="Tip %s"' % rng.choice(['one', 'TWO', '&quot;q&quot;'])
-        parts.append('<li><a%s>%s%s</a></li>' % (attrs, inner, t if rng.random() < 0.92 else ''))
+        link = '<a%s>%s%s</a>' % (attrs, inner, t if rng.random() < 0.92 else '')
+        if rng.random() < 0.12:        # links inside containers whose content the differs otherwise treat as a unit or as not displayed
+            link = rng.choice(['<svg width="9">%s</svg>', '<template>%s</template>', '<ruby>r<rp>%s</rp></ruby>', '<math><mtext>%s</mtext></math>',
+                               '<select><option>o</option></select>%s', '<svg><g>%s</g></svg>']) % link
+        parts.append('<li>%s</li>' % link)
     parts.append('</ul></body></html>')
     return ''.join(parts)
 
